@@ -274,7 +274,11 @@ def check(ctx):
     rr = [c for c in walk_own(nd.node) if method_call(c, 'read') and norm(c.func.value) == 'self.mem_handler']
     ok = len(rr) == 1 and [norm(a) for a in rr[0].args[1:]] == ['8', 'elem_len + 3']
     ln = [s for s in walk_own(nd.node) if isinstance(s, ast.Assign) and 'elem_len' in norm(s.targets[0])]
-    ok = ok and len(ln) == 1 and norm(ln[0].value) == "struct.unpack('BB', %s[8:10])" % dn
+    # (elem_ver, elem_len) = unpack(..)  or  elem_len = unpack(..)[1]: the length is the SECOND byte of the pair
+    okl = len(ln) == 1 and ((norm(ln[0].value) == "struct.unpack('BB', %s[8:10])" % dn and isinstance(ln[0].targets[0], (ast.Tuple, ast.List)) and
+                             len(ln[0].targets[0].elts) == 2 and norm(ln[0].targets[0].elts[1]) == 'elem_len') or
+                            (norm(ln[0].targets[0]) == 'elem_len' and norm(ln[0].value) == "struct.unpack('BB', %s[8:10])[1]" % dn))
+    ok = ok and okl
     ctx.inst('R4', nd, 'second-read-covers-area', ok, 'second read = (8, announced length + version + length + crc bytes)')
 
     # =========================== R5: lighthouse memory ========================================
